@@ -6,7 +6,7 @@ for pre in ${@:-EQ EQ2 EQ3}; do for d in /verif/seeded/${pre}_C??; do
   git -C /repo apply $d/patch.diff || { echo "$d: patch does not apply"; continue; }
   EV=$(mktemp -d)
   for c in $CHECKS; do ( PMV_EVIDENCE_DIR=$EV /verif/check $c --tier quick --no-selftest > $EV/$c.log 2>&1; echo "$c exit=$?" >> $EV/exits ) & done; wait
-  git -C /repo checkout -- .
+  git -C /repo checkout -- . ; git -C /repo clean -fdq -- pmutt
   grep -v "exit=0" $EV/exits | while read c e; do echo "$(basename $d) $c $e"; grep -a "rule=\|ANALYSIS-ERROR" $EV/$c.log | head -3 | cut -c1-300; done
   rm -rf $EV
 done; done
